@@ -478,20 +478,20 @@ theorem WF.fracdet {m : MapObj} {ord : Nat} (h : m.WF) (hk : m.KindOk) (hlo : m.
 
 /-! ### the driver operations that store these maps (Model/Dispatch.lean)
 
-Each operation either leaves the world unchanged or stores exactly one map with `World.put`;
+Each operation either leaves the world unchanged or stores exactly one map with `World.bind`;
 the stored map is well formed and well typed (given, for the operations that work on an
 existing map, that the map looked up with `World.get?` is). -/
 
 /-- well formed and well typed -/
 def MapObj.Good (m : MapObj) : Prop := m.WF ∧ m.KindOk
 
-/-- `w'` is `w`, or `w` with one map stored (`World.put`), the stored map satisfying `G`
+/-- `w'` is `w`, or `w` with one map stored (`World.bind`), the stored map satisfying `G`
     whenever the map the operation looked up (`World.get?`) satisfies `H` -/
 def StoresFrom (H G : MapObj → Prop) (w w' : World) : Prop :=
-  w' = w ∨ ∃ n m r m', w.get? n = some m ∧ (H m → G m') ∧ w' = w.put r m'
+  w' = w ∨ ∃ n m r m', w.get? n = some m ∧ (H m → G m') ∧ w' = w.bind r m'
 
 /-- `w'` is `w`, or `w` with one map satisfying `G` stored -/
-def Stores (G : MapObj → Prop) (w w' : World) : Prop := w' = w ∨ ∃ r m', G m' ∧ w' = w.put r m'
+def Stores (G : MapObj → Prop) (w w' : World) : Prop := w' = w ∨ ∃ r m', G m' ∧ w' = w.bind r m'
 
 theorem WFRes.storesFrom_withMap {H G : MapObj → Prop} (w : World) (a : Args)
     (k : MapObj → World × String)
